@@ -44,7 +44,7 @@ def r1(ctx, R):
                 removers.append((f, c))
         for st, t in q.attr_writes(f, attr="input_keys"):
             assigns.append((f, st))
-    R.need(adders and removers and assigns, "input_keys writers not found")
+    R.must(adders and removers and assigns, "input_keys writers not found")
     R.slot("input_keys", {"add": [f.short for f, _ in adders], "remove": [f.short for f, _ in removers],
                           "assign": [f.short for f, _ in assigns]})
     for f, c in adders:
